@@ -30,7 +30,7 @@ structure Err where
   extensions : Option (List (String × J))   -- `none` = nil map
   path : List J
   locations : List Loc
-  deriving Repr
+  deriving Repr, Inhabited
 
 inductive PathElem where
   | name (s : String)
@@ -43,7 +43,7 @@ structure ParserErr where
   path : List PathElem
   locations : List Loc
   extensions : List (String × J)
-  deriving Repr
+  deriving Repr, Inhabited
 
 /-- a Go `error` value as `FormatError`'s type switch sees it. `errorList` is allowed to nest
     arbitrarily (the Go type only allows `*Error` elements; the theorems hold for every depth). -/
@@ -54,7 +54,7 @@ inductive GoErr where
   | parserError (e : ParserErr)       -- `*gqlerror.Error`
   | parserList (es : List ParserErr)  -- `gqlerror.List`
   | other (msg : String)              -- any other error: only `Error()` is used
-  deriving Repr
+  deriving Repr, Inhabited
 
 def undefinedCode : List (String × J) := [("code", .str "UNDEFINED_ERROR")]
 def validationCode : List (String × J) := [("code", .str "GRAPHQL_VALIDATION_FAILED")]
